@@ -413,6 +413,23 @@ def _fact_exprs(must):
     return fact_exprs(must)
 
 
+def _always_returns(stmts) -> bool:
+    """every path through the block ends in a return / raise"""
+    if not stmts:
+        return False
+    last = stmts[-1]
+    if isinstance(last, (ast.Return, ast.Raise)):
+        return True
+    if isinstance(last, ast.If):
+        return bool(last.orelse) and _always_returns(last.body) and _always_returns(last.orelse)
+    if isinstance(last, ast.Match):
+        has_default = any(isinstance(c.pattern, ast.MatchAs) and c.pattern.pattern is None and c.guard is None for c in last.cases)
+        return has_default and all(_always_returns(c.body) for c in last.cases)
+    if isinstance(last, ast.Try):
+        return _always_returns(last.body) and all(_always_returns(h.body) for h in last.handlers)
+    return False
+
+
 def rule_nodetype(ctx, rep, prop_rule="R-NODETYPE"):
     """ComparisonTarget.operator must be a comparison operator: the value assigned in every branch of the inversion match."""
     rep.rule(
@@ -443,6 +460,26 @@ def rule_nodetype(ctx, rep, prop_rule="R-NODETYPE"):
 
                         t = class_table(ctx, fn, v.func)
                         good = bool(t) and set(t.values()) <= COMPOPS
+                    if not good and isinstance(v, ast.Call):
+                        # a helper of the repository that hands back the operator: every value it returns is an operator node; a `None`
+                        # it may return ("operator not known") must be excluded where the slot is filled
+                        try:
+                            ts = [t for t in ctx.resolver(fn).resolve_call(v) if isinstance(t, FuncInfo)]
+                        except Exception:
+                            ts = []
+                        if len(ts) == 1:
+                            rets = [r_.value for r_ in walk_no_nested(ts[0].node) if isinstance(r_, ast.Return)]
+                            ops_ok = bool(rets) and all(
+                                rv is None or (isinstance(rv, ast.Constant) and rv.value is None) or (isinstance(rv, ast.Call) and last_attr(rv.func) in COMPOPS)
+                                or (isinstance(rv, ast.Attribute) and rv.attr == "operator") for rv in rets)
+                            may_none = any(rv is None or (isinstance(rv, ast.Constant) and rv.value is None) for rv in rets) or not _always_returns(ts[0].node.body)
+                            guarded = True
+                            if may_none and isinstance(op, ast.Name):
+                                must = ctx.flow(fn).must_at(c)
+                                guarded = (False, f"{op.id} is None") in must or (True, op.id) in must or (True, f"{op.id} is not None") in must
+                            elif may_none:
+                                guarded = False
+                            good = ops_ok and guarded
                     if not good:
                         bad.append(v)
                 rep.check(prop_rule, fn.qname, fn.loc(c), not bad, "operator-slot",
